@@ -426,6 +426,50 @@ static void midCallParamProbe(Rng &rng, CaseResult &r, uint64_t idx) {
   r.sig = std::string("midcall:") + bad[which].name;
 }
 
+// A rejected parameter set leaves the circuit unmodified - also its pending-update state. Inside a callback of a running call the
+// circuit is resized (permitted), then a nested placement call with rejected parameters is made and its exception swallowed. The
+// outer call must end exactly as it does without that nested, refused call.
+static void nestedRejectedProbe(Rng &rng, CaseResult &r, uint64_t idx) {
+  static std::vector<BadParam> bad = badParams();
+  Circuit c0 = smallCircuit(rng);
+  ColoquinteParameters p((int)rng.range(1, 4));
+  p.global.maxNbSteps = 3;
+  ColoquinteParameters q = p;
+  int which = (int)(idx % bad.size());
+  bad[which].set(q);
+  int outer = (int)rng.range(0, 2), inner = (int)rng.range(0, 2), what = (int)rng.range(0, 2);
+  static const char *sn[3] = {"placeGlobal", "legalize", "placeDetailed"};
+  if (r.needSample()) r.sample = vf::J::obj().kv("probe", "nested call with rejected parameters inside a callback after a permitted update").kv("outer", sn[outer]).kv("nested", sn[inner]).kv("bad_field", bad[which].name).kraw("circuit", circuitJson(c0)).str();
+  if (r.dumpOnly) return;
+  bool callbackRan = false;
+  auto run = [&](bool nested, Circuit &c, std::string &err, bool &innerThrew) -> bool {
+    int ncb = 0;
+    innerThrew = false;
+    PlacementCallback cb = [&](PlacementStep) {
+      if (++ncb != 1) return;
+      callbackRan = true;
+      if (what == 0) c.setCellWidth(std::vector<int>(c.cellWidth_)); else if (what == 1) c.setCellHeight(std::vector<int>(c.cellHeight_)); else c.setNetWeights(std::vector<float>(c.netWeights_));
+      if (!nested) return;
+      try { if (inner == 0) c.placeGlobal(q); else if (inner == 1) c.legalize(q); else c.placeDetailed(q); } catch (const std::exception &) { innerThrew = true; }
+    };
+    try {
+      if (outer == 0) c.placeGlobal(p, cb); else if (outer == 1) c.legalize(p, cb); else c.placeDetailed(p, cb);
+      return true;
+    } catch (const std::exception &e) { err = e.what(); return false; }
+  };
+  Circuit a = c0, b = c0;
+  std::string ea, eb;
+  bool ta, tb;
+  bool oka = run(false, a, ea, ta), okb = run(true, b, eb, tb);
+  if (!callbackRan) { r.sig = "no-callback"; return; }  // the outer call ended before its first callback
+  if (!tb) { r.fail("C19:rejected-parameters-but-call-returned", std::string("nested ") + sn[inner] + " with " + bad[which].name + " did not throw"); return; }
+  if (oka != okb || ea != eb) r.fail("C19:rejected-call-changed-the-pending-update-state", std::string(sn[outer]) + " with a resizing callback " + (oka ? "returns" : "throws '" + ea + "'") + "; with an additional nested " + sn[inner] + " refused for " + bad[which].name + " it " + (okb ? "returns" : "throws '" + eb + "'"));
+  else if (!samePlacement(a, b)) r.fail("C19:rejected-call-changed-the-pending-update-state", std::string(sn[outer]) + ": the result differs when a nested call with rejected parameters was made (and refused) inside a callback");
+  r.count(oka ? "outer_returned" : "outer_threw");
+  r.nontrivial = true;
+  r.sig = std::string("nested:") + sn[outer] + ":" + sn[inner] + ":" + std::to_string(what);
+}
+
 // A valid multi-net description (limits / cells / offsets / weights), corrupted in one randomly chosen way; every vector is
 // exactly sized so that ASan sees any read past its end during validation.
 static void netStructureProbe(Rng &rng, CaseResult &r) {
@@ -503,6 +547,7 @@ static void netStructureProbe(Rng &rng, CaseResult &r) {
 
 int main(int argc, char **argv) {
   std::vector<vf::Part> parts;
+  parts.push_back({"c19.params.nested", [](uint64_t idx, Rng &rng, CaseResult &r) { nestedRejectedProbe(rng, r, idx); }, 60});
   parts.push_back({"c19.params.midcall", [](uint64_t idx, Rng &rng, CaseResult &r) { midCallParamProbe(rng, r, idx); }, 60});
   parts.push_back({"c19.nets.structure", [](uint64_t, Rng &rng, CaseResult &r) { netStructureProbe(rng, r); }, 30});
   parts.push_back({"c19.effort.window", [](uint64_t idx, Rng &, CaseResult &r) { effortProbe((int)idx - 16, r); }, 30});
